@@ -233,8 +233,14 @@ func cmdCheck(args []string) {
 	start := time.Now()
 	res := runProperty(prop, *tier, *timeout)
 	known := loadKnownFindings()
-	os.MkdirAll(filepath.Join(verifDir(), "evidence"), 0o755)
-	replayDir := filepath.Join(verifDir(), "replays", prop)
+	// GOVC_OUT redirects evidence and replay files (used when checks are run against seeded/mutated trees, so that
+	// the committed evidence always comes from the unchanged tree)
+	outBase := verifDir()
+	if d := os.Getenv("GOVC_OUT"); d != "" {
+		outBase = d
+	}
+	os.MkdirAll(filepath.Join(outBase, "evidence"), 0o755)
+	replayDir := filepath.Join(outBase, "replays", prop)
 	os.RemoveAll(replayDir)
 
 	var violations []string
@@ -436,7 +442,7 @@ func cmdCheck(args []string) {
 		ev["coverage"].(map[string]interface{})["explanation"] = "no obligation discharged in this run"
 	}
 	data, _ := json.MarshalIndent(ev, "", " ")
-	os.WriteFile(filepath.Join(verifDir(), "evidence", prop+".json"), data, 0o644)
+	os.WriteFile(filepath.Join(outBase, "evidence", prop+".json"), data, 0o644)
 	fmt.Printf("property %s tier %s: %d obligations, %d discharged, %d known findings, %d violations, %.1fs (load %.1fs, encode %.1fs, solve %.1fs)\n",
 		prop, *tier, nObl, nDis, nKnown, len(violations), wall, res.LoadS, res.EncodeS, res.SolveS)
 	for _, v := range violations {
